@@ -23,6 +23,7 @@ import (
 	"strconv"
 	"strings"
 	"sync"
+	"syscall"
 	"time"
 
 	"github.com/parquet-go/parquet-go"
@@ -791,9 +792,12 @@ func c15Session(ctx *core.Ctx, d interface {
 		wg.Wait()
 		close(done)
 	}()
-	select {
-	case <-done:
-	case <-time.After(60 * time.Second):
+	// No verdict of this sub-check depends on how fast the machine is: a session that has not
+	// finished is a deadlock only when every goroutine taking part in it is parked on a channel or a
+	// lock (a state nothing but another of these goroutines could end); as long as one of them is
+	// runnable, running or sleeping the session is merely slow and we keep waiting. A session still
+	// unfinished after the (generous) cap is reported as an observation and ends the sub-check.
+	if verdict, dump := c15Await(done, 20*time.Minute, c15SessionGoroutine); verdict != "done" {
 		logs := parquet.VerifAsyncTraceStop()
 		var detail []any
 		for i, in := range insts {
@@ -803,8 +807,12 @@ func c15Session(ctx *core.Ctx, d interface {
 			}
 			detail = append(detail, map[string]any{"kind": in.kind, "layout": in.layout.tokens(), "ops": c15OpsText(in.ops), "events": strings.Join(ev, ",")})
 		}
-		ctx.Fail("L1", "async-deadlock", "an asyncPages history did not finish within 60 s (deadlock or livelock)",
-			map[string]any{"gomaxprocs": procs, "jitter": jitter, "session": session, "instances": detail})
+		d := map[string]any{"gomaxprocs": procs, "jitter": jitter, "session": session, "instances": detail, "goroutines": dump}
+		if verdict == "deadlock" {
+			ctx.Fail("L1", "async-deadlock", "an asyncPages history cannot finish: every goroutine of the session (consumers and readPages producers) is blocked on a channel or lock operation", d)
+		} else {
+			ctx.Observe("async-session-unfinished", "a recording session was still making progress when the harness gave up waiting (slow machine); no verdict is derived from it", d)
+		}
 		return false
 	}
 	logs := parquet.VerifAsyncTraceStop()
@@ -1004,12 +1012,15 @@ func c15BuildRace() (string, string, error) {
 		return "", "", fmt.Errorf("harness module file not found (%s): run through ./check", modfile)
 	}
 	bin := filepath.Join(root, ".build", "pqrace")
-	c, cancel := context.WithTimeout(context.Background(), 8*time.Minute)
+	c, cancel := context.WithTimeout(context.Background(), 15*time.Minute)
 	defer cancel()
 	cmd := exec.CommandContext(c, "go", "build", "-race", "-modfile", modfile, "-tags", "verif", "-o", bin, "./cmd/pqrace")
 	cmd.Dir = harness
 	cmd.Env = c15GoEnv()
 	out, err := cmd.CombinedOutput()
+	if c.Err() == context.DeadlineExceeded {
+		err = context.DeadlineExceeded
+	}
 	return bin, string(out), err
 }
 
@@ -1042,12 +1053,18 @@ func RunC15Scenarios(ctx *core.Ctx) {
 	}
 	// ---- the same scenarios in a -race build, as subprocesses
 	bin, out, err := c15BuildRace()
+	if errors.Is(err, context.DeadlineExceeded) {
+		// a slow machine is not a finding: the race half of the sub-check did not run
+		ctx.Hist("race_build", "timeout")
+		ctx.Observe("race-build-timeout", "go build -race of cmd/pqrace did not finish in time (slow machine): the scenarios ran without the race detector only", map[string]any{"output": out})
+		return
+	}
 	if err != nil {
 		ctx.Fail("L2", "race-build-failed", "go build -race of cmd/pqrace failed: "+err.Error(), map[string]any{"output": out})
 		return
 	}
 	ctx.Hist("race_build", "ok")
-	timeout := time.Duration(ctx.Scale(150, 540)) * time.Second
+	timeout := time.Duration(ctx.Scale(420, 900)) * time.Second // expiry is never a verdict (see c15RaceRun)
 	var wg sync.WaitGroup
 	sem := make(chan struct{}, max(2, runtime.NumCPU()/4))
 	for _, sc := range C15Scenarios {
@@ -1065,12 +1082,31 @@ func RunC15Scenarios(ctx *core.Ctx) {
 }
 
 func c15RaceRun(ctx *core.Ctx, bin, name, doc string, seed int64, n, procs int, timeout time.Duration) {
-	c, cancel := context.WithTimeout(context.Background(), timeout)
-	defer cancel()
-	cmd := exec.CommandContext(c, bin, "-scenario", name, "-seed", fmt.Sprint(seed), "-n", fmt.Sprint(n), "-procs", fmt.Sprint(procs))
-	cmd.Env = append(os.Environ(), "GORACE=halt_on_error=1")
-	out, err := cmd.CombinedOutput()
-	text := string(out)
+	cmd := exec.Command(bin, "-scenario", name, "-seed", fmt.Sprint(seed), "-n", fmt.Sprint(n), "-procs", fmt.Sprint(procs))
+	cmd.Env = append(os.Environ(), "GORACE=halt_on_error=1", "GOTRACEBACK=all")
+	var outBuf c15SyncBuffer
+	cmd.Stdout, cmd.Stderr = &outBuf, &outBuf
+	err := cmd.Start()
+	timedOut := false
+	if err == nil {
+		exited := make(chan error, 1)
+		go func() { exited <- cmd.Wait() }()
+		select {
+		case err = <-exited:
+		case <-time.After(timeout):
+			// not finished: ask the process for its goroutines (SIGQUIT makes the Go runtime print
+			// every goroutine with its state and exit); the dump decides between "deadlock" and "slow"
+			timedOut = true
+			cmd.Process.Signal(syscall.SIGQUIT)
+			select {
+			case err = <-exited:
+			case <-time.After(2 * time.Minute):
+				cmd.Process.Kill()
+				err = <-exited
+			}
+		}
+	}
+	text := outBuf.String()
 	lastSeed := seed
 	for _, line := range strings.Split(text, "\n") {
 		if strings.HasPrefix(line, "RUN ") {
@@ -1083,21 +1119,164 @@ func c15RaceRun(ctx *core.Ctx, bin, name, doc string, seed int64, n, procs int, 
 	}
 	ctx.HistN("race_runs", name, int64(strings.Count(text, "OK scenario=")))
 	tail := text
-	if len(tail) > 6000 {
-		tail = tail[:3000] + "\n...\n" + tail[len(tail)-3000:]
+	if len(tail) > 9000 {
+		tail = tail[:3000] + "\n...\n" + tail[len(tail)-6000:]
 	}
 	detail := map[string]any{"scenario": name, "seed": lastSeed, "gomaxprocs": procs, "output": tail,
 		"replay": fmt.Sprintf("GORACE=halt_on_error=1 .build/pqrace -scenario %s -seed %d -procs %d", name, lastSeed, procs)}
 	switch {
 	case strings.Contains(text, "WARNING: DATA RACE"):
 		ctx.Fail("L1", "data-race "+name, doc+": the race detector reports a data race", detail)
-	case c.Err() == context.DeadlineExceeded:
-		ctx.Fail("L1", "deadlock "+name, doc+": the scenario did not finish (timeout)", detail)
+	case strings.Contains(text, "all goroutines are asleep - deadlock!"):
+		// the Go runtime's own detector: no goroutine of the process can run any more
+		ctx.Fail("L1", "deadlock "+name, doc+": deadlock (the Go runtime found every goroutine blocked)", detail)
+	case timedOut:
+		// a verdict needs a state that no amount of waiting changes: every goroutine of the process
+		// parked on a channel or lock. Anything else is a slow machine.
+		if i := strings.Index(text, "SIGQUIT: quit"); i >= 0 {
+			// the SIGQUIT traceback lists the runtime's own goroutines too (GC workers, ...): the
+			// scenario's goroutines are those with frames of the harness or the library
+			user := func(stack string) bool {
+				return strings.Contains(stack, "main.main") || strings.Contains(stack, "verifharness/props.") || strings.Contains(stack, "parquet-go.")
+			}
+			if stuck, states := c15AllBlocked(text[i:], user); stuck {
+				detail["goroutine_states"] = states
+				ctx.Fail("L1", "deadlock "+name, doc+": the scenario cannot finish: every goroutine of the process is blocked on a channel or lock operation", detail)
+				return
+			}
+		}
+		ctx.Hist("race_run_unfinished", name)
+		ctx.Observe("race-run-unfinished "+name, "the -race subprocess was still running when the harness gave up waiting (slow machine); no verdict is derived from it", detail)
 	case strings.Contains(text, "MISMATCH "):
 		ctx.Fail("L1", "scenario-differs-from-serial "+name, doc+": concurrent output differs from the serial output (race build)", detail)
 	case strings.Contains(text, "panic:") || strings.Contains(text, "fatal error:"):
 		ctx.Fail("L1", "panic "+name, doc+": panic", detail)
 	case err != nil:
 		ctx.Fail("L1", "scenario-crash "+name, doc+": the scenario process failed: "+err.Error(), detail)
+	}
+}
+
+// c15SyncBuffer collects the output of a subprocess (written by the exec package's copier).
+type c15SyncBuffer struct {
+	mu sync.Mutex
+	b  bytes.Buffer
+}
+
+func (b *c15SyncBuffer) Write(p []byte) (int, error) {
+	b.mu.Lock()
+	defer b.mu.Unlock()
+	return b.b.Write(p)
+}
+
+func (b *c15SyncBuffer) String() string {
+	b.mu.Lock()
+	defer b.mu.Unlock()
+	return b.b.String()
+}
+
+// ---------------------------------------------------------------- deadlock vs slowness
+
+// c15BlockedStates are the goroutine wait reasons that only another goroutine's channel or lock
+// operation ends. Everything else (running, runnable, syscall, sleep, IO wait, GC ...) is a
+// goroutine that makes progress by itself once it gets CPU time.
+var c15BlockedStates = map[string]bool{
+	"chan receive": true, "chan send": true, "select": true, "select (no cases)": true,
+	"chan receive (nil chan)": true, "chan send (nil chan)": true,
+	"semacquire": true, "sync.Mutex.Lock": true, "sync.RWMutex.RLock": true, "sync.RWMutex.Lock": true,
+	"sync.Cond.Wait": true, "sync.WaitGroup.Wait": true,
+}
+
+// c15AllBlocked parses a goroutine dump (runtime.Stack(all) or the SIGQUIT traceback) and reports
+// whether every goroutine selected by involved (given its stack text) is in a blocked state, and
+// there is at least one. states lists "id:state" of the selected goroutines, sorted by appearance.
+func c15AllBlocked(dump string, involved func(stack string) bool) (bool, string) {
+	var states []string
+	all := true
+	for _, block := range strings.Split(dump, "\n\n") {
+		block = strings.TrimSpace(block)
+		if !strings.HasPrefix(block, "goroutine ") || strings.HasPrefix(block, "goroutine 0 ") { // 0 = scheduler stack of a thread
+			continue
+		}
+		head, _, _ := strings.Cut(block, "\n")
+		open, close := strings.Index(head, "["), strings.LastIndex(head, "]")
+		if open < 0 || close < open {
+			continue
+		}
+		if !involved(block) {
+			continue
+		}
+		state, _, _ := strings.Cut(head[open+1:close], ",")
+		state = strings.TrimSuffix(strings.TrimSpace(state), " (scan)")
+		states = append(states, strings.TrimSpace(strings.TrimPrefix(head[:open], "goroutine "))+":"+state)
+		if !c15BlockedStates[state] {
+			all = false
+		}
+	}
+	return all && len(states) > 0, strings.Join(states, " ")
+}
+
+// c15SessionGoroutine selects the goroutines of a trace session: the consumers (c15Run, c15RunRows
+// and the library frames under them), the readPages producers, and the session's coordinator; not
+// the goroutine taking the dump.
+func c15SessionGoroutine(stack string) bool {
+	if strings.Contains(stack, "runtime.Stack(") || strings.Contains(stack, "props.c15Await") {
+		return false
+	}
+	return strings.Contains(stack, "parquet-go.") || strings.Contains(stack, "props.c15Run") || strings.Contains(stack, "props.c15Session")
+}
+
+// c15Await waits for done. It returns "done"; or "deadlock" with the goroutine dump once three
+// consecutive dumps, taken seconds apart, show the same selected goroutines all blocked (which, the
+// selection being closed under "who could wake whom", is a state that lasts forever whatever the
+// speed of the machine); or "unfinished" when the cap expires while some goroutine can still run.
+func c15Await(done <-chan struct{}, limit time.Duration, involved func(string) bool) (string, string) {
+	start := time.Now()
+	prev, same := "", 0
+	buf := make([]byte, 1<<20)
+	for {
+		wait := 5 * time.Second
+		if same > 0 {
+			wait = 2 * time.Second
+		}
+		select {
+		case <-done:
+			return "done", ""
+		case <-time.After(wait):
+		}
+		for {
+			n := runtime.Stack(buf, true)
+			if n < len(buf) {
+				buf = buf[:n]
+				break
+			}
+			buf = make([]byte, 2*len(buf))
+		}
+		dump := string(buf)
+		buf = buf[:cap(buf)]
+		stuck, states := c15AllBlocked(dump, involved)
+		if stuck && states == prev {
+			same++
+		} else if stuck {
+			prev, same = states, 1
+		} else {
+			prev, same = "", 0
+		}
+		if same >= 3 {
+			select {
+			case <-done:
+				return "done", ""
+			default:
+			}
+			if len(dump) > 60000 {
+				dump = dump[:60000]
+			}
+			return "deadlock", dump
+		}
+		if time.Since(start) > limit {
+			if len(dump) > 60000 {
+				dump = dump[:60000]
+			}
+			return "unfinished", dump
+		}
 	}
 }
